@@ -212,12 +212,12 @@ let model_variants (leb : term -> term -> bool) (lg : string) (opn : string) (ar
   | "ite" -> [ "ok", mkIte args ]
   | "=" -> [ "ok", mkEq leb uf args ]
   | "distinct" -> [ "ok", mkDistinct leb uf false args; "ok-expanded", mkDistinct leb uf true args ]
-  | "+" -> [ "ok", mkPlus args ]
-  | "-" -> [ "ok", mkMinus args ]
-  | "neg" -> [ "ok", (match args with [a] -> mkNeg a | _ -> None) ]
-  | "*" -> [ "ok", mkTimes true args; "ok-unfixed", mkTimes false args ]
-  | "/" -> [ "ok", mkRealDiv args ]
-  | "div" -> [ "ok", mkIntDiv args ]
+  | "+" -> [ "ok", mkPlus leb args ]
+  | "-" -> [ "ok", mkMinus leb args ]
+  | "neg" -> [ "ok", (match args with [a] -> mkNeg leb a | _ -> None) ]
+  | "*" -> [ "ok", mkTimes leb true args; "ok-unfixed", mkTimes leb false args ]
+  | "/" -> [ "ok", mkRealDiv leb args ]
+  | "div" -> [ "ok", mkIntDiv leb args ]
   | "mod" -> [ "ok", mkMod args ]
   | "<=" -> [ "ok", mkLeq leb args ]
   | "<" -> [ "ok", mkLt leb args ]
@@ -250,7 +250,14 @@ let process (line : string) : string =
           | Some i -> (canon (term_of_sx (parse_sx (String.sub e (i + 1) (String.length e - i - 1)))), int_of_string (String.sub e 0 i))
           | None -> failwith ("bad rank " ^ e)) (split_on_string " ;; " ranks) in
     let rk t = match List.assoc_opt (canon t) rank_tbl with Some r -> r | None -> max_int in
-    let leb a b = compare (rk a, a) (rk b, b) <= 0 in
+    (* ArithLogic::termSort compares products by the PTRef of their variable (LessThan_deepPTRef): ties between
+       x and c*x are real ties; terms whose PTRef is not reported are ordered after the others, structurally *)
+    let key t = match t with
+      | TApp (OTimes, [a; b]) -> (match a, b with TNum _, _ -> rk b | _, TNum _ -> rk a | _, _ -> rk t)
+      | _ -> rk t in
+    let leb a b =
+      let ka = key a and kb = key b in
+      if ka = max_int && kb = max_int then compare a b <= 0 else ka <= kb in
     let variants = model_variants leb lg opn args in
     let impl = if res = "undef" || (String.length res >= 4 && String.sub res 0 4 = "exc:") then None
       else Some (canon (term_of_sx (parse_sx res))) in
